@@ -405,6 +405,7 @@ type Node struct {
 	TpCalls      []TpCall
 	gsHist       []*GS
 	ReadyErr     error // what the manager's readiness reported (only with Cfg.AllowReadyErr)
+	ReadyNever   bool  // readiness was not announced within ten simulated minutes (only with Cfg.AllowReadyErr)
 	AllGSCalls   []GSCall
 	CrashedLives map[int]bool // lives that began after a crash (not a clean stop)
 	LifeStart    map[int]int  // scheduling step at which each life began
@@ -473,6 +474,18 @@ func (n *Node) Start() bool {
 	}
 	if n.PostStart != nil {
 		n.PostStart(m)
+	}
+	if n.Cfg.AllowReadyErr {
+		// a start-up that may fail: readiness must still be announced - wait for it, but not for ever
+		for i := 0; i < 600 && len(ready) == 0; i++ {
+			simrt.Sleep(time.Second)
+		}
+		if len(ready) == 0 {
+			n.ReadyNever = true
+			n.Mgr = m
+			n.Up = true
+			return true
+		}
 	}
 	if e := simrt.Recv(ready); e != nil {
 		if !n.Cfg.AllowReadyErr {
